@@ -68,6 +68,17 @@ CHECKS = {
         "cores), two voices/staves; three open known findings (divisions change without a time point, doubled right-barline fermata, Words objects).",
         "DESIGN.md section 4 C03",
     ),
+    "C04": (
+        "exhaustive enumeration of small scores x (mode, pickup policy, minimum_ppq, velocity, input/output kind) configurations against an exact-Fraction tick model; raw mido read plus re-import",
+        "Scores are enumerated in named sub-spaces (division grids with every pickup length, part/group/voice structures, touching equal pitches "
+        "in all voice/part assignments, all ordered divisions pairs with mid-bar changes, all 4-slot rhythms with every tie subset over tuplet "
+        "grids, option products); each is exported by the real save_score_midi in the configured modes, the file is read raw with mido and compared "
+        "with exact reference ticks (ppq = lcm doubled to the minimum, every tick integral), then imported with load_score_midi in the same mode "
+        "and compared (notes, grouping, signatures, tempo).",
+        "Trusted: mido; reference model mc/c04_model.py; parts start at 0 and share measures; pitch spelling not compared; tempo within 1 us per "
+        "quarter; hangs detected by a CPU-time limit; one open known finding (0/x signature under time_sig_change).",
+        "DESIGN.md section 4 C04",
+    ),
     "C06": (
         "exhaustive enumeration of small performances x export options and of abstract MIDI files with tempo events, against an exact tick/tempo reference reader",
         "All performances of up to three notes over grids containing exact ticks, half-tick ties and non-representable decimals, with controls, "
@@ -135,6 +146,16 @@ CHECKS = {
         "transpose_note / step2pc / Roman-numeral root and bass arithmetic are enumerated completely.",
         "Trusted: reference arithmetic in mc/c16_model.py; only results needing at most two accidentals are compared; compound intervals out of scope.",
         "DESIGN.md section 4 C16",
+    ),
+    "C18": (
+        "exhaustive enumeration of small score/performance/alignment triples x 5 normalisations x 2 tempo methods, encode->decode round trip and time maps against exact references",
+        "All single-part scores of a structural family (compositions of four grid units into notes/chords/rests, second voice, grace, pickup), all "
+        "tempo sequences over {0.3,0.5,0.8}, all single (and pairs of) alignment changes (deletion, insertion, ornament, unknown ids) in three "
+        "alignment orders and several input forms are encoded and decoded under every normalisation and tempo method on the real implementation; "
+        "the matched table, decoded onsets up to one shift, durations, velocities and both time maps are compared with references.",
+        "Trusted: reference in mc/c18_model.py; tolerances 2e-5 s / 1e-5 relative (measured worst error 7e-7 s); performances have increasing mean "
+        "onset per score onset; three open known findings (grace duration 0, 75 ms floor twice).",
+        "DESIGN.md section 4 C18",
     ),
     "C20": (
         "exhaustive enumeration of call sequences (depth 2) over an object family + stateless enumeration of all interleavings of iteration clients",
